@@ -31,8 +31,8 @@ OP = "trace_chains"
 # ---- the call under test --------------------------------------------------------------------------------------
 def build_motls(case):
     """Entry and exit lists as Motl objects.  variant bit 0: part of every position is carried by the shift columns;
-    bit 1: the lists are handed over as DataFrames (row labels varied by variant // 8); bit 2: trace_chains is called
-    twice on the same list objects."""
+    bit 1: the lists are handed over as DataFrames (row labels varied by variant // 8); bits 2 and 3 both set: trace_chains is
+    called twice on the same list objects."""
     from cryocat import cryomotl
     n = len(case["entry"])
     variant = case.get("variant", 0)
@@ -59,12 +59,12 @@ def build_motls(case):
 
 def call_trace(case):
     """Returns the projected tables [first call (looked at again after the second), second call on the SAME list objects]
-    when variant bit 2 is set, else [the one call]."""
+    when variant bits 2 and 3 are set, else [the one call]."""
     from cryocat import ribana
     me, mx = build_motls(case)
     with contextlib.redirect_stdout(io.StringIO()):
         first = ribana.trace_chains(me, mx, case["max"], case["min"])
-        if not case.get("variant", 0) & 4:
+        if case.get("variant", 0) & 12 != 12:
             return [project(first.df)]
         # the caller's own list objects are re-used: an implementation that modifies its arguments or keeps state
         # between calls shows up in the second table, or in the first one when it is inspected afterwards
